@@ -1,1 +1,10 @@
-/- C15 — property theorems (stub: the slice is not built yet). -/
+import GB.C15.Spec
+/- C15 — property theorems (being filled in). -/
+open GB GB.C15
+
+/-- Negative witness for the pre-fix hash input: the service sets {a.b, c} and {a.bc} differ but
+    the concatenation of their sorted names is the same byte string. -/
+theorem C15_prefix_concat_collision :
+    svcPreOld [[97, 46, 98], [99]] = svcPreOld [[97, 46, 98, 99]] ∧
+    sameSet [[97, 46, 98], [99]] [[97, 46, 98, 99]] = false := by
+  decide
